@@ -7,7 +7,8 @@
    Values: dates (y, m, d); times (h, m, s, utc?); durations and offsets in whole seconds (Z).
    vFloat / vGeo are not modelled (implementation-level oracle only, see tools/harness/c03.py). *)
 Require Import Lib.Base Model.Params Model.CodecBase Model.CodecDate Model.CodecDur Model.CodecMisc Gen.Gen_prop.
-Require Import Proofs.CodecBaseProofs Proofs.CodecDateProofs Proofs.CodecDurProofs Proofs.CodecMiscProofs.
+Require Import Proofs.CodecBaseProofs Proofs.CodecDateProofs Proofs.CodecDurProofs Proofs.CodecMiscProofs
+        Proofs.CodecDddProofs Proofs.CodecB64Proofs.
 From Coq Require Import ZArith List Bool.
 Local Open Scope Z_scope.
 
@@ -91,6 +92,42 @@ Theorem C03_month_enc_grammar : forall n leap, 1 <= n <= 12 ->
 Proof. exact month_enc_grammar. Qed.
 Print Assumptions C03_month_enc_grammar.
 
+(* PERIOD, explicit form: both ends valid datetimes of one kind (naive / UTC) with start <= end; the
+   text is read back by vPeriod.from_ical and by vDDDTypes.from_ical, and is an RFC period *)
+Theorem C03_period_explicit_rt : forall a b t, enc_period_explicit a b = Ok t ->
+  dec_period t = Ok (DPeriod (DDatetime a) (DDatetime b))
+  /\ ddd_from_ical t = Ok (DPeriod (DDatetime a) (DDatetime b))
+  /\ period_value t = Some (DPeriod (DDatetime a) (DDatetime b)).
+Proof. exact period_explicit_rt. Qed.
+Print Assumptions C03_period_explicit_rt.
+
+(* PERIOD, start + duration form (non-negative duration, end representable) *)
+Theorem C03_period_dur_rt : forall a s t, enc_period_dur a s = Ok t ->
+  dec_period t = Ok (DPeriod (DDatetime a) (DDur s))
+  /\ ddd_from_ical t = Ok (DPeriod (DDatetime a) (DDur s))
+  /\ period_value t = Some (DPeriod (DDatetime a) (DDur s)).
+Proof. exact period_dur_rt. Qed.
+Print Assumptions C03_period_dur_rt.
+
+(* BINARY: the base64 layer over ALL octet lists ... *)
+Theorem C03_base64_rt : forall l, Forall (fun x => (x < 256)%N) l ->
+  a2b (b64_enc l) 0 0 0 = Ok l /\ binary_grammar (b64_enc l) = true.
+Proof. exact b64_rt. Qed.
+Print Assumptions C03_base64_rt.
+
+(* ... and vBinary over all strings: what comes back is the UTF-8 octets of the text (bytes, where text
+   was given), and the text written is RFC 5545 "binary" *)
+Theorem C03_binary_rt : forall s t, enc_binary s = Ok t ->
+  exists o, utf8_encode s = Ok o /\ dec_binary t = Ok o /\ binary_grammar t = true.
+Proof. exact binary_rt. Qed.
+Print Assumptions C03_binary_rt.
+
+Theorem C03_binary_enc_total : forall s,
+  forallb (fun c => (c <? 1114112)%N && negb ((55296 <=? c)%N && (c <=? 57343)%N)) s = true ->
+  exists t, enc_binary s = Ok t.
+Proof. exact binary_enc_total. Qed.
+Print Assumptions C03_binary_enc_total.
+
 Theorem C03_uri_rt : forall s, dec_uri (enc_uri s) = s /\ (uri_grammar s = true -> uri_grammar (enc_uri s) = true).
 Proof. exact uri_rt. Qed.
 Print Assumptions C03_uri_rt.
@@ -121,15 +158,14 @@ Print Assumptions C03_datetime_grammar_dec.
 
 (* DURATION, on the guard "at most 4300 characters and inside timedelta's range" (finding C03-F4;
    the length bound is CPython's int() digit limit) *)
-Theorem C03_dur_grammar_dec : forall t v, dur_value t = Some v -> all_ascii t = true ->
+Theorem C03_dur_grammar_dec : forall t v, dur_value t = Some v ->
   (List.length t <=? 4300)%nat && td_ok v = true -> dec_dur t = Ok v.
-Proof. exact dur_grammar_dec. Qed.
+Proof. exact dur_grammar_dec'. Qed.
 Print Assumptions C03_dur_grammar_dec.
 
-Theorem C03_dur_grammar_dec_full : forall t v, dur_value t = Some v -> all_ascii t = true ->
-  (List.length t <= 4300)%nat ->
+Theorem C03_dur_grammar_dec_full : forall t v, dur_value t = Some v -> (List.length t <= 4300)%nat ->
   dec_dur t = if (td_max <? Z.abs v) || (v <? td_min) then Escape s_overflow else Ok v.
-Proof. exact dur_grammar_dec_full. Qed.
+Proof. exact dur_grammar_dec_full'. Qed.
 Print Assumptions C03_dur_grammar_dec_full.
 
 Theorem C03_offset_grammar_dec : forall t v, offset_value t = Some v -> dec_offset t = Ok v.
@@ -153,6 +189,26 @@ Print Assumptions C03_frequency_grammar_dec.
 Theorem C03_month_grammar_dec : forall t v, month_value t = Some v -> dec_month t = Ok v.
 Proof. exact month_grammar_dec. Qed.
 Print Assumptions C03_month_grammar_dec.
+
+(* ============================== the combined decoder picks the right type ============================== *)
+(* for every grammar-valid text of a type, vDDDTypes.from_ical is that type's decoder (its result wrapped in
+   the type's constructor); together with the *_grammar_dec theorems: the right type AND the right value *)
+Theorem C03_ddd_dispatch_date : forall t v, date_value t = Some v -> ddd_from_ical t = wrap_date (dec_date t).
+Proof. exact ddd_dispatch_date. Qed.
+Print Assumptions C03_ddd_dispatch_date.
+
+Theorem C03_ddd_dispatch_time : forall t v, time_value t = Some v -> ddd_from_ical t = wrap_time (dec_time t).
+Proof. exact ddd_dispatch_time. Qed.
+Print Assumptions C03_ddd_dispatch_time.
+
+Theorem C03_ddd_dispatch_datetime : forall t v, datetime_value t = Some v ->
+  ddd_from_ical t = wrap_datetime (dec_datetime t).
+Proof. exact ddd_dispatch_datetime. Qed.
+Print Assumptions C03_ddd_dispatch_datetime.
+
+Theorem C03_ddd_dispatch_dur : forall t v, dur_value t = Some v -> ddd_from_ical t = wrap_dur (dec_dur t).
+Proof. exact ddd_dispatch_dur. Qed.
+Print Assumptions C03_ddd_dispatch_dur.
 
 (* ============================== refutations outside the guards (known findings) ============================== *)
 
